@@ -82,7 +82,11 @@ def one_schedule(sched_mod, lp, policy, T: int, inputs, early, fail, reuse: str,
                 yield k
                 k += 1
 
+    durations = STATE.get("durations") or {}
+
     def func(x):
+        if x in durations:
+            sched.sleep(sched.me(), durations[x])      # a slow read (virtual time), e.g. a fault met late
         if fail is not None and x == fail:
             raise FAIL_TYPES[fail_type](f"mapped function failed on input {x}")
         return x * 2 + 1
@@ -218,6 +222,11 @@ def run_controlled(case: dict) -> dict:
         STATE["pauses"] = ({rng.randrange(0, 12): rng.choice([0.5, 3.0, 30.0, 600.0]) for _ in range(rng.randint(1, 2))}
                            if rng.random() < 0.25 else None)
         obs["schedules_with_consumer_pauses"] += int(bool(STATE["pauses"]))
+        STATE["durations"] = ({rng.randrange(0, 14): rng.choice([0.2, 0.7, 1.5, 20.0]) for _ in range(rng.randint(1, 3))}
+                              if rng.random() < 0.3 else None)
+        if STATE["durations"] is not None and fail is not None and rng.random() < 0.7:
+            STATE["durations"][fail] = rng.choice([0.7, 1.5, 20.0])       # the failing call is the slow one
+        obs["schedules_with_slow_calls"] += int(bool(STATE["durations"]))
         STATE["input_kind"] = rng.randrange(3)
         obs[f"input_kind:{('generator', 'range', 'list')[STATE['input_kind']]}"] += 1
         verdict, sched = one_schedule(sched_mod, lp, policy, T, n if n is not None else "inf", early, fail, reuse,
@@ -272,6 +281,7 @@ def run_dfs(case: dict) -> dict:
         policy = sched_mod.ReplayPolicy(prefix)
         STATE["input_kind"] = (T + n) % 3
         STATE["pauses"] = None
+        STATE["durations"] = None
         verdict, sched = one_schedule(sched_mod, lp, policy, T, n, early, fail, "after-exit" if n <= 1 else "none",
                                       fail_type)
         explored += 1
